@@ -226,6 +226,22 @@ def run_c05(tier):
     return chk.finish()
 
 
+def has_wide_counter(tree):
+    """does a struct (at any depth) count an array with a 64-bit sizer?"""
+    if tree['k'] == 'union':
+        return any(has_wide_counter(a['t']) for a in tree['arms'])
+    if tree['k'] != 'struct':
+        return False
+    for m in tree['ms']:
+        if 'sizer' in m:
+            sm = next((x for x in tree['ms'] if x['n'] == m['sizer']), None)
+            if sm is not None and sm['t'].get('p') in ('u64', 'i64'):
+                return True
+        if has_wide_counter(m['t']):
+            return True
+    return False
+
+
 def run_c07(tier):
     chk = core.Check('C07', tier)
     chk.rule = ('for every type of the C++ corpus and several values: every prefix of the canonical encoding, extensions, corruptions '
@@ -250,7 +266,15 @@ def run_c07(tier):
         creqs, meta = [], []
         for (c, v, e), a in zip(seeds, ans):
             data = bytes.fromhex(a['bytes'])
-            for kind, bs in malformed_stream(chk.rng, data, chk.scale(10, 40), chk.scale(4, 12)):
+            stream = malformed_stream(chk.rng, data, chk.scale(10, 40), chk.scale(4, 12))
+            if has_wide_counter(c.tree):
+                # 64-bit counters: every aligned 8-byte word set to values whose product with an element size wraps
+                for off in range(0, len(data) - 7, 8):
+                    for val in (2 ** 61, 2 ** 61 + 1, 2 ** 62, 2 ** 63, 2 ** 64 - 1, 2 ** 60 + 1):
+                        b = bytearray(data)
+                        b[off:off + 8] = val.to_bytes(8, 'little' if e == '<' else 'big')
+                        stream.append(('wide-counter', bytes(b)))
+            for kind, bs in stream:
                 creqs.append((c, {'op': 'decode', 'e': E_NAME[e], 'data': bs.hex()}))
                 meta.append((c, e, kind, bs))
         out = corpus.run(creqs)
